@@ -382,7 +382,10 @@ void Transportation1dSolver::checkSolutionOptimal(const Solution &alloc) const {
         snk = nxt - 1;
         break;
       }
-      gain += gainRight[nxt];
+      if (nxt + 1 < nbSinks()) {
+        // The last sink has no right neighbour (its gain is a sentinel)
+        gain += gainRight[nxt];
+      }
     }
   }
 
@@ -400,7 +403,10 @@ void Transportation1dSolver::checkSolutionOptimal(const Solution &alloc) const {
         snk = nxt + 1;
         break;
       }
-      gain += gainLeft[nxt];
+      if (nxt >= 1) {
+        // The first sink has no left neighbour (its gain is a sentinel)
+        gain += gainLeft[nxt];
+      }
     }
   }
 }
